@@ -191,6 +191,12 @@ def cases(draw, tier="quick"):
         t["NfFF"] = draw(st.integers(3, 5))
         if draw(st.booleans()):
             t["nfref"] = t["NfFF"]
+    # the order of the coefficient functions may be given separately (PTODIS): the running of the coupling follows PTO
+    r = draw(st.integers(0, 3))
+    if r == 1:
+        t["PTODIS"] = None
+    elif r >= 2:
+        t["PTODIS"] = draw(st.sampled_from([o for o in range(4) if o != pto]))
     base["apply_theory"] = t
     return base
 
@@ -353,6 +359,8 @@ def check_case(case):
                     v.label("theory:FFNS-nfref-differs")
         if usable and mus:
             v.label("clause:theory", f"theory:{th['FNS'] if th['FNS'] != 'FFN0' else 'FFNS'}", f"theory:pto{th['PTO']}")
+            if th.get("PTODIS") is not None and th["PTODIS"] != th["PTO"]:
+                v.label("theory:ptodis-differs")
             gt = guarded(out.apply_pdf_theory, f1, th)
             cache = {}
 
